@@ -34,6 +34,8 @@ func RegisterAll() {
 	run.Register(&c10{})
 	run.Register(&c11{})
 	run.Register(&c12{})
+	run.Register(&c13{})
+	run.Register(&c20{})
 }
 
 func hashStr(parts ...string) string {
